@@ -72,7 +72,7 @@ def expected_atoms(gf):
 def run(ctx):
     common.check_obligations(ctx, THEOREMS)
     rng = ctx.rng
-    nfiles = 600 if ctx.thorough() else 60
+    nfiles = 3000 if ctx.thorough() else 60
     nvar = 12 if ctx.thorough() else 5
     ev = 0
     shards = []
